@@ -77,7 +77,9 @@ def build_cli():
     if _built.get("cli"):
         return
     t0 = time.time()
-    p = sh(["cargo", "build", "-p", "bindgen-cli", "--release", "--offline", "--target-dir", CLI_TARGET], cwd=REPO)
+    # same reasoning as harness/Cargo.toml: overflow and debug assertions inside bindgen must be observable
+    env = dict(ENV, CARGO_PROFILE_RELEASE_OVERFLOW_CHECKS="true", CARGO_PROFILE_RELEASE_DEBUG_ASSERTIONS="true")
+    p = sh(["cargo", "build", "-p", "bindgen-cli", "--release", "--offline", "--target-dir", CLI_TARGET], cwd=REPO, env=env)
     if p.returncode != 0:
         sys.stdout.write(p.stderr.decode(errors="replace")[-4000:])
         die_machinery("production bindgen CLI failed to build")
